@@ -15,6 +15,11 @@ CLAIMS = {
         "Trusted: symx interception layer, z3 (nonlinear real arithmetic), exp2/log2 lemmas (each true of the real functions). With a genome and a free log2 the X/Y row takes coordinates from a concrete list of 12 representatives of every position class relative to PAR1/PAR2 (solver-chosen); the inversion harness keeps them symbolic.",
         "DESIGN.md 4/C01",
     ),
+    "C02": (
+        "The real absolute_threshold (symbolic strictly increasing thresholds, length 1..4 quick / 12 thorough) and do_call(method=threshold) (default and concrete vectors, NaN rows) run on symbolic log2 for ploidy 1..6 x chromosome class x reference sex x naming; z3 proves per path that cn equals the statement's step function (count of thresholds strictly below, rescaled and truncated on haploid chromosomes, ceil(r*2^log2) above the last), that NaN yields the reference copy number, that rows are preserved, monotonicity in log2 for the default thresholds (with exact rational enclosures of 2^threshold), cn = 2 at log2 0, and the allelic clauses cn1 + cn2 = cn, 0 <= cn1, cn2 <= cn, NaN exactly where BAF is missing and cn > 0 (BAF symbolic).",
+        "Trusted: symx interception layer, z3, exp2 lemmas. Allelic harness: log2 from an 8-value grid and purity concrete (none/0.3/0.6/0.95) because absolute*baf under round() is nonlinear. Known finding D9 (ploidy 1 non-monotone) is listed in known_findings.json.",
+        "DESIGN.md 4/C02",
+    ),
     "C06": (
         "Every feasible path of the real merge/flatten/subtract/intersection/subdivide/resize_ranges/total_range_size code on tables of <= 3 rows (quick; 4 thorough) with fully symbolic integer coordinates in [0, 10^6] is enumerated by z3; on each path the base-exactness oracle (one universally quantified position x) and the structural clauses are discharged as unsat. A bounded model check of the real code, not a proof: nothing is claimed beyond the row bounds.",
         "Trusted: the symx interception layer (object-dtype pandas semantics = int64 semantics, validated by replaying explored paths on the untouched code), z3; avg/min sizes of subdivide concrete.",
